@@ -4,6 +4,12 @@ import json, os
 V = os.path.dirname(os.path.dirname(os.path.abspath(__file__)))
 ALL = ["C%02d" % i for i in range(1, 21)]
 CHECKS = {
+ "C01": dict(level="model_checking", technique="symbolic execution of the MIR of gm-sm3 (regenerated from /repo) into z3 bit-vector / integer queries; unsat = holds",
+             text="cf ≡ GB/T 32905 compression for ALL chaining values and blocks (one query); sm3_hash ≡ spec for symbolic contents at every length 0..200 (thorough 0..512,1000,4096) with cf uninterpreted on both sides; pad for SYMBOLIC length 64q+r < 2^61, one query per residue r (covers bit lengths beyond 32 bits); purity structural.",
+             note="rustc nightly MIR printer; z3; my spec model (validated on the standard's vectors); whole-function claim is compositional (cf lemma + per-length framing).", design="§2 C01", engine="mirsmt"),
+ "C02": dict(level="model_checking", technique="symbolic execution of the MIR of gm-sm4 into z3 bit-vector queries with the S-box uninterpreted; table checked exhaustively against the algebraic S-box",
+             text="Key schedule, encrypt, decrypt ≡ GB/T 32907 for all keys / round keys / blocks; decrypt∘encrypt = encrypt∘decrypt = id proved on the code; cipher object unchanged and repeat calls agree (3-call histories); SBOX/FK/CK ground-checked; thorough adds Kani bit-precise re-proofs.",
+             note="S-box uninterpreted in the equivalence queries (sound over-approximation); z3; MIR printer; spec model validated on the Annex example.", design="§2 C02", engine="mirsmt"),
  "C04": dict(level="model_checking", technique="Kani/CBMC bounded model checking of the real verify code, symbolic key/digest/x1/signature, EC+hash layer as arbitrary stubs",
              text="Bounded model checking of Sm2PublicKey::verify/verify_raw compiled from /repo: for every signature length 0..130 (quick: 12 boundary lengths) and all contents, acceptance implies the GB/T 32918.2 conditions and the [s]G+[t]P data-flow; panics are failures.",
              note="EC layer and SM3 are arbitrary logging stubs (their correctness is C11/C01); fp_from_mont returns a value < p; CBMC/CaDiCaL, Kani's MIR translation.", design="§2 C04"),
